@@ -9,11 +9,16 @@ package main
 //   expiry <ttlMs> <pttl> <startMs> <arrivalMs>  -> <pxat>      model Rv.Lru.expiryOf; (start, arrival) fitted inside [tb, ta]
 //   !acc <pxat> <tb2> <ta2> <CachePTTL> <CacheTTL>              spec: accessors agree with the expiry
 //   !rehit <path> <pttl> <pxat> <t2b> <t2a> <hit> <pxat2>       spec: second read hits only before the expiry
+//   !expiry2 domulti-gap <store> <ttlMs> <pttl> <sb> <sa> <ab> <aa> <pxat>
+//            spec: the call started in [sb,sa], the reply OF THIS COMMAND arrived in [ab,aa] (DoMultiCache whose
+//            2nd/3rd EXEC reply is held 300 ms longer than the previous one: every reply has its own arrival clock)
 // The harness answers `ok` to every `!` line.
 
 import (
 	"context"
 	"fmt"
+	"strings"
+	"sync"
 	"time"
 
 	"github.com/redis/rueidis"
@@ -278,7 +283,163 @@ func ttlEpisode(c *Ctx, tc ttlCase) {
 	}
 }
 
+// ---- DoMultiCache with a gap between the arrivals of the EXEC replies of one batch
+
+type gapCase struct {
+	simple bool
+	pttl   []int64 // one per command; the first reply is not held, every later one 300 ms longer than the previous
+}
+
+type gapOut struct {
+	lines [][2]string // op, class
+	fails [][3]string
+}
+
+func gapEpisode(tc gapCase) (out gapOut) {
+	store := storeName(tc.simple)
+	desc := fmt.Sprintf("domulti-gap %s %v", store, tc.pttl)
+	failf := func(key, op, format string, args ...any) {
+		out.fails = append(out.fails, [3]string{key, op, fmt.Sprintf(format, args...)})
+	}
+	srv := fakeredis.New(fakeredis.Options{})
+	defer srv.Close()
+	client, err := pipeClient(srv, tc.simple)
+	if err != nil {
+		failf("cachettl:newclient", desc, "%v", err)
+		return
+	}
+	defer client.Close()
+	ctx := context.Background()
+	const ttlMs = 60000
+	ttl := ttlMs * time.Millisecond
+	n := len(tc.pttl)
+	keys := make([]string, n)
+	gates := make([]chan struct{}, n)
+	for i := range keys {
+		keys[i] = fmt.Sprintf("g%d", i+1)
+		v := keys[i] + "|1"
+		client.Do(ctx, client.B().Set().Key(keys[i]).Value(v).Build())
+		r := fakeredis.Rule{Match: fakeredis.Cmd("EXEC"), Times: 1, Exec: true, Reply: []byte(fmt.Sprintf("*2\r\n:%d\r\n%s", tc.pttl[i], respBulk(v, false)))}
+		if i > 0 {
+			gates[i] = make(chan struct{})
+			r.Gate = gates[i]
+		}
+		srv.AddRule(r) // one-shot rules fire in the order they were added: one per EXEC of the batch
+	}
+	execs := func() (k int) {
+		for _, e := range srv.Log() {
+			if len(e.Argv) == 1 && (e.Argv[0] == "EXEC" || e.Argv[0] == "exec") {
+				k++
+			}
+		}
+		return
+	}
+	batch := make([]rueidis.CacheableTTL, n)
+	for i, k := range keys {
+		batch[i] = rueidis.CT(client.B().Get().Key(k).Cache(), ttl)
+	}
+	tg := make([]int64, n) // tg[i]: a clock reading BEFORE reply i could leave the server
+	var sa int64           // a clock reading AFTER the call had started (its commands are on the server)
+	released := make(chan struct{})
+	go func() {
+		defer close(released)
+		ok := srv.WaitFor(5*time.Second, func() bool { return execs() >= n })
+		sa = time.Now().UnixMilli()
+		if !ok {
+			sa = 0
+		}
+		for i := 1; i < n; i++ {
+			time.Sleep(300 * time.Millisecond)
+			tg[i] = time.Now().UnixMilli()
+			close(gates[i])
+		}
+	}()
+	tb := time.Now().UnixMilli()
+	rs := client.DoMultiCache(ctx, batch...)
+	ta := time.Now().UnixMilli()
+	<-released
+	tg[0] = tb
+	if sa == 0 || len(rs) != n {
+		failf("cachettl:harness:gap-batch", desc, "batch did not reach the server as %d transactions (%d results)", n, len(rs))
+		return
+	}
+	if sa > ta {
+		sa = ta
+	}
+	for i, k := range keys {
+		v, err := rs[i].ToString()
+		if err != nil || v != k+"|1" || rs[i].IsCacheHit() {
+			failf("cachettl:pipe:first-read-value", desc, "%s: hit=%v value %q err %v", k, rs[i].IsCacheHit(), v, err)
+			continue
+		}
+		p, pxat := tc.pttl[i], rs[i].CachePXAT()
+		op := fmt.Sprintf("!expiry2 domulti-gap %s %d %d %d %d %d %d %d", store, ttlMs, p, tb, sa, tg[i], ta, pxat)
+		out.lines = append(out.lines, [2]string{op, fmt.Sprintf("domulti-gap:reply%d:pttl=%s", i+1, ttlClass(ttlMs, p))})
+		ex := func(start, arrival int64) int64 {
+			if p < 0 || start+ttlMs < arrival+p {
+				return start + ttlMs
+			}
+			return arrival + p
+		}
+		if lo, hi := ex(tb, tg[i]), ex(sa, ta); pxat < lo || pxat > hi {
+			failf("cachettl:pipe:arrival-clock-per-reply", op, "DoMultiCache (%s store), command %d of %d (%s): client ttl %d ms from a start in [%d,%d], server PTTL %d in a reply that arrived in [%d,%d] (held %d ms longer than the first reply): committed with expiry %d, must lie in [%d,%d]",
+				store, i+1, n, k, ttlMs, tb, sa, p, tg[i], ta, tg[i]-tb, pxat, lo, hi)
+		}
+	}
+	return
+}
+
+func runGap(c *Ctx) {
+	var cases []gapCase
+	for _, simple := range []bool{false, true} {
+		for _, p := range []int64{0, 5, 1000, 30000, 100000, -1} {
+			cases = append(cases, gapCase{simple: simple, pttl: []int64{1000, p}})
+		}
+		for _, p := range [][]int64{{5, 0, 5}, {-1, 1000, 30000}, {100000, 5, 0}, {0, 30000, 1000}, {30000, -1, 100000}} {
+			cases = append(cases, gapCase{simple: simple, pttl: p})
+		}
+	}
+	for i := 0; i < c.N/20; i++ {
+		p := make([]int64, 2+c.Rng.IntN(2))
+		for j := range p {
+			p[j] = []int64{0, 1, 5, 200, 1000, 30000, 59999, 60000, 60001, 100000, -1, -2}[c.Rng.IntN(12)]
+		}
+		cases = append(cases, gapCase{simple: c.Rng.IntN(2) == 0, pttl: p})
+	}
+	// independent episodes (own server and client), mostly asleep: run side by side, emit in case order
+	outs := make([]gapOut, len(cases))
+	sem := make(chan struct{}, 12)
+	var wg sync.WaitGroup
+	for i := range cases {
+		wg.Add(1)
+		sem <- struct{}{}
+		go func(i int) {
+			defer wg.Done()
+			outs[i] = gapEpisode(cases[i])
+			<-sem
+		}(i)
+	}
+	wg.Wait()
+	for _, o := range outs {
+		for _, l := range o.lines {
+			c.Emit(l[0], "ok", true)
+			c.Hit(l[1])
+			for _, f := range o.fails {
+				if f[1] == l[0] {
+					c.Fail(f[0], f[1], f[2])
+				}
+			}
+		}
+		for _, f := range o.fails {
+			if !strings.HasPrefix(f[1], "!") {
+				c.Fail(f[0], f[1], f[2])
+			}
+		}
+	}
+}
+
 func runCacheTTL(c *Ctx) {
+	defer runGap(c)
 	ttls := []int64{200, 2000, 60000}
 	grid := func(ttl int64) []int64 {
 		return []int64{0, 1, 3, 50, ttl - 1, ttl, ttl + 1, 10 * ttl, 86400000, -1, -2}
